@@ -214,6 +214,8 @@ def gen_fiber(rng, uid, *, length=None, whole_km=False, allow_none_con=True, max
     if lumped and length > 3:
         n = rng.randint(1, 2)
         pos = sorted(rnd(rng, 0.1 * length, 0.9 * length, 3) for _ in range(n))
+        if n == 2 and pos[0] == pos[1]:
+            pos[1] = round(pos[1] + 0.007, 3)      # (two draws may coincide: equal positions are made on purpose only)
         if dup_lumped and n == 2 and rng.random() < 0.2:
             # two losses declared at the same place (splice + connector); not expressible in the YANG format,
             # where the position is the list key
